@@ -345,7 +345,7 @@ fn run_scenario(sc: &Scenario, ops: &[Op], rng: &mut Rng, ev: &mut Ev, case: u64
 
 fn main() {
     let args = Args::parse("C17");
-    let n_cases = args.budget(24, 600);
+    let n_cases = args.budget(24, 1500);
     let hist_len = args.extra_u64("history").unwrap_or(if args.thorough() { 300 } else { 120 }) as usize;
     let max_threads = args.extra_u64("max-threads").unwrap_or(16) as usize;
     let perms = args.extra_u64("perms").unwrap_or(if args.thorough() { 10 } else { 3 }) as usize;
